@@ -408,3 +408,82 @@ func measStateCmd(args []string) {
 		stdout.Flush()
 	}
 }
+
+// ---------------------------------------------------------------------------------------------
+//	vh predyear -jobs <file>   (lines: "<fmt 0..3> <cent> <date text>")
+// the year (from 1900) the REAL LangTagConverter takes from a prediction date: P2 of the call with the date is compared
+// with P2 of calls without a date and start year a = 0..250 (P2 = (a-1)*365 + a/4 + P2base is strictly increasing in a)
+
+func init() { commands["predyear"] = predYearCmd }
+
+func predYearCmd(args []string) {
+	fs := flag.NewFlagSet("predyear", flag.ExitOnError)
+	jobsFile := fs.String("jobs", "", "job lines")
+	fs.Parse(args)
+	raw, err := os.ReadFile(*jobsFile)
+	if err != nil {
+		panic(err)
+	}
+	for k, l := range splitLinesKeep(string(raw)) {
+		t := splitArgs(l)
+		if len(t) != 3 {
+			continue
+		}
+		f, _ := strconv.Atoi(t[0])
+		cent, _ := strconv.Atoi(t[1])
+		lt := hermes.LangTagConverter(cent, hermes.DateFormat(f))
+		_, _, p2 := lt(52.5, t[2], 80)
+		yr := -1
+		for a := 0; a <= 250; a++ {
+			if _, _, q := lt(52.5, "--------", a); q == p2 {
+				yr = a
+				break
+			}
+		}
+		emit(jobj{"k": k, "year": yr})
+	}
+	stdout.Flush()
+}
+
+// ---------------------------------------------------------------------------------------------
+//	vh stalerun -work <examples tree> -lines <file> [-perturb]
+// runs each batch line in-process; with -perturb the parameters of N-content function 5 (RGA, RGB, SubOrgan) — which the
+// classic crop reader leaves at the previous crop's values for crops of another N function — are overwritten every day
+// while the current crop's N function is not 5.  The results must not depend on them ("does not read what the reader did not set").
+
+func init() { commands["stalerun"] = staleRunCmd }
+
+func staleRunCmd(args []string) {
+	fs := flag.NewFlagSet("stalerun", flag.ExitOnError)
+	work := fs.String("work", ".", "scratch copy of the examples tree")
+	linesFile := fs.String("lines", "", "file with batch lines")
+	perturb := fs.Bool("perturb", false, "overwrite the stale fields")
+	from := fs.Int("from", 0, "first line index")
+	fs.Parse(args)
+	raw, err := os.ReadFile(*linesFile)
+	if err != nil {
+		panic(err)
+	}
+	var lines []string
+	for _, l := range splitLinesKeep(string(raw)) {
+		if len(l) > 0 {
+			lines = append(lines, l)
+		}
+	}
+	for k := *from; k < len(lines); k++ {
+		fmt.Fprintf(os.Stderr, "JOB %d\n", k)
+		days := 0
+		if *perturb {
+			hermes.VerifProbe = func(stage string, zeit, subd int, wdt float64, g *hermes.GlobalVarsMain, w *hermes.WaterSharedVars, nn *hermes.NitroSharedVars) {
+				if stage == "evatra-pre" && g.NGEFKT != 5 {
+					g.RGA, g.RGB, g.SubOrgan = 7.25, -3.5, 2
+					days++
+				}
+			}
+		}
+		res := runProject(*work, splitArgs(lines[k]))
+		hermes.VerifProbe = nil
+		emit(jobj{"line": k, "success": res.Success, "err": res.Err, "perturbed_days": days})
+		stdout.Flush()
+	}
+}
